@@ -17,23 +17,7 @@ def ordFrom (kept : List (String × List String)) : String → List Tuple → Li
     | some ws => ts.filter (fun t => ws.contains t.toWire) ++ ts.filter (fun t => !ws.contains t.toWire)
     | none => ts
 
-/-- some head other than the answered (last) one has more tuples in the least model than the limit. -/
-def limitTruncatesIntermediate (cfg : Cfg) (p : Program) (edb : DB) : Bool :=
-  cfg.limit > 0 &&
-  match pmEval fuelDefault p edb with
-  | some m => (heads p).any (fun h => h != answeredRel p && (m.get h).length > cfg.limit)
-  | none => false
-
-/-- SIP on: the semijoin-reduction intermediates (`<rel>_sipNfK`, copies of the body atoms'
-    relations of a joining rule) are heads too and get the limit: some joining non-recursive rule
-    scans a relation with more tuples than the limit. -/
-def limitTruncatesSipIntermediate (cfg : Cfg) (p : Program) (edb : DB) : Bool :=
-  cfg.sip && cfg.limit > 0 &&
-  match pmEval fuelDefault p edb with
-  | some m => (nonRecRules p).any (fun r => r.posAtoms.length ≥ 2 && r.posAtoms.any (fun a => (m.get a.rel).length > cfg.limit))
-  | none => false
-
-def verdict (cfg : Cfg) (p : Program) (edb : DB) (lim unl : String) : String × Bool :=
+def verdict (cfg : Cfg) (_p : Program) (_edb : DB) (lim unl : String) : String × Bool :=
   if lim.startsWith "err:" || unl.startsWith "err:" || cfg.limit == 0 then ("na", false) else
   let r := if lim == "{}" then [] else lim.splitOn ";"
   let a := if unl == "{}" then [] else unl.splitOn ";"
@@ -41,9 +25,7 @@ def verdict (cfg : Cfg) (p : Program) (edb : DB) (lim unl : String) : String × 
   if r.all a.contains && r.length == min cfg.limit a.length then (specOk, nt)
   else
     let d := if !r.all a.contains then "not-subset" else "cardinality"
-    if limitTruncatesIntermediate cfg p edb then (specFail "limit_truncates_intermediate_head" d, nt)
-    else if limitTruncatesSipIntermediate cfg p edb then (specFail "limit_truncates_sip_intermediate" d, nt)
-    else (specFail "unclassified" d, nt)
+    (specFail "unclassified" d, nt)
 
 /-- `c08.run 00000:1:L | items` → `limited answer#derived… / unlimited answer`. The model is run
     with the emission order read off the implementation's own (truncated) results — the
